@@ -2,7 +2,7 @@
 namespace BdModel.Canon.Sched
 
 /-- hash of the normalised skeleton of Schedule (internal/dag/scheduler/scheduler.go) -/
-def h_sched_Schedule : Nat := 0xa18a916f404f7d1d
+def h_sched_Schedule : Nat := 0xb0573dcdccd73d26
 
 /-- hash of the normalised skeleton of isReady (internal/dag/scheduler/scheduler.go) -/
 def h_sched_isReady : Nat := 0xfa451317c79e8e2a
@@ -70,7 +70,7 @@ def errSwitch : List (List String) := [
   ["status == NodeStatusSuccess || status == NodeStatusCancel", ""],
   ["sc.isTimeout(g.startedAt)", "node.setStatus(NodeStatusCancel); sc.setLastError(execErr)"],
   ["sc.isCanceled()", "node.setStatus(NodeStatusCancel); sc.setLastError(execErr)"],
-  ["node.data.Step.RetryPolicy != nil && node.data.Step.RetryPolicy.Limit > node.getRetryCount()", "node.incRetryCount(); time.Sleep(node.data.Step.RetryPolicy.Interval); node.setRetriedAt(time.Now()); node.setStatus(NodeStatusNone)"],
+  ["node.data.Step.RetryPolicy != nil && node.data.Step.RetryPolicy.Limit > node.getRetryCount()", "node.incRetryCount(); time.Sleep(node.data.Step.RetryPolicy.Interval); node.setRetriedAt(time.Now()); _ = sc.teardownNode(node); released = true; node.setStatus(NodeStatusNone)"],
   ["default", "node.setStatus(NodeStatusError); node.setErr(execErr); sc.setLastError(execErr)"]]
 
 def exitAppend : String := "handlers = append(handlers, dag.HandlerOnExit)"
@@ -99,7 +99,7 @@ def pred_isSucceed : List String := ["nodeStatus == NodeStatusSuccess || nodeSta
 
 def pred_runningCount : List String := ["node.State().Status == NodeStatusRunning => count++"]
 
-def scheduleIfConds : List String := ["err != nil", "sc.timeout > 0", "sc.isCanceled()", "node.State().Status != NodeStatusNone || !isReady(g, node)", "sc.isCanceled()", "sc.maxActiveRuns > 0 && sc.runningCount(g) >= sc.maxActiveRuns", "len(node.data.Step.Preconditions) > 0", "err != nil", "err != nil", "execErr != nil", "node.State().Status != NodeStatusCancel", "node.data.Step.RepeatPolicy.Repeat", "execErr == nil || node.data.Step.ContinueOn.Failure", "!sc.isCanceled()", "execErr != nil && done != nil", "node.State().Status == NodeStatusRunning", "executed", "err != nil", "done != nil", "n != nil", "err != nil", "done != nil"]
+def scheduleIfConds : List String := ["err != nil", "sc.timeout > 0", "sc.isCanceled()", "node.State().Status != NodeStatusNone || !isReady(g, node)", "sc.isCanceled()", "sc.maxActiveRuns > 0 && sc.runningCount(g) >= sc.maxActiveRuns", "len(node.data.Step.Preconditions) > 0", "err != nil", "err != nil", "!released", "execErr != nil", "node.State().Status != NodeStatusCancel", "node.data.Step.RepeatPolicy.Repeat", "execErr == nil || node.data.Step.ContinueOn.Failure", "!sc.isCanceled()", "execErr != nil && done != nil", "node.State().Status == NodeStatusRunning", "executed", "!released", "err != nil", "done != nil", "n != nil", "err != nil", "done != nil"]
 
 def signalSkeleton : List String := ["if !sc.isCanceled()", ".sc.setCanceled()", "range _,node := g.Nodes()", ".if !node.data.Step.RepeatPolicy.Repeat || sig == syscall.SIGKILL", "..node.signal(sig, allowOverride)", "if done != nil", ".func#0()()", "..func#0 body", "...done <- true", ".defer ^", ".for ;g.IsRunning() || sc.isExecuting(g);", "..time.Sleep(sc.pause)"]
 
